@@ -24,7 +24,7 @@ static u64 run_seed(u64 base, const std::string& prop, u64 r) { return mix64(mix
 struct Cfg {
     std::string cmd, prop, plan_path, out_path, data_dir, outdir = ".";
     u64 seed = 0; long runs = 100; int worker = 0, nworkers = 1; double budget_s = 0; bool twice = false; bool keep_log = false;
-    bool w2 = false; int variant_base = 0; bool enumerate = true; bool fills = true; long start = 0;
+    bool w2 = false; int variant_base = 0; bool enumerate = true; bool fills = true; long start = 0; int tag = -1;
 };
 
 static RunOpts opts_for(const Plan& p, const Cfg& c, u64 sseed) {
@@ -256,6 +256,7 @@ int main(int argc, char** argv) {
         else if (a == "--worker") c.worker = atoi(val().c_str()); else if (a == "--nworkers") c.nworkers = atoi(val().c_str());
         else if (a == "--budget") c.budget_s = atof(val().c_str()); else if (a == "--twice") c.twice = true; else if (a == "--log") c.keep_log = true;
         else if (a == "--plan") c.plan_path = val(); else if (a == "--out") c.out_path = val(); else if (a == "--data") c.data_dir = val(); else if (a == "--outdir") c.outdir = val();
+        else if (a == "--tag") c.tag = atoi(val().c_str());
         else if (a == "--no-enumerate") c.enumerate = false; else if (a == "--no-fills") c.fills = false;
         else { fprintf(stderr, "unknown argument %s\n", a.c_str()); return 3; }
     }
@@ -347,8 +348,9 @@ int main(int argc, char** argv) {
     j += "],\"samples\":[";
     for (size_t i = 0; i < samples.size(); ++i) j += strf("%s\"%s\"", i ? "," : "", json_escape(samples[i]).c_str());
     j += "]}";
-    write_file(strf("%s/worker-%s-%d.json", c.outdir.c_str(), c.prop.c_str(), c.worker), j);
-    write_file(strf("%s/hashes-%s-%d.txt", c.outdir.c_str(), c.prop.c_str(), c.worker), hashes);
+    int tag = c.tag >= 0 ? c.tag : c.worker;
+    write_file(strf("%s/worker-%s-%d.json", c.outdir.c_str(), c.prop.c_str(), tag), j);
+    write_file(strf("%s/hashes-%s-%d.txt", c.outdir.c_str(), c.prop.c_str(), tag), hashes);
     printf("DONE runs=%ld wall=%.2f\n", done, wall);
     fflush(stdout);
     _exit(exit_code);
